@@ -7,32 +7,15 @@ Model: `Model/DataModel.lean` (AST level model of `data_model_parser.rs` and of 
 persist cycle of `graph_database.rs`). All statements quantify over every model, every version, every
 history of versions (user and system), every hash-map visit order `pri` — no bound.
 
-Two deviations found by this check were fixed in /repo (`hashOrderIds` e35fd01, `partialRefusal` fb21964);
-a third one is open (`defaultDropAccepted`: a version may remove the default of a not nullable field).
-`Defects.asImplemented` differs from `Defects.none` by that switch only; it is consulted by a single check of
-`Entity::update`, so every theorem below that does not mention conformance of old rows also holds for the code
-as implemented with the same proof (`C15_code_vs_intended`). The `C15_breaks_*` witnesses and `C15_partial`
-describe what each defect does; the replays in corpus/C15 exhibit the same on the real code.
+The three deviations found by this check were fixed in /repo (`hashOrderIds` e35fd01, `partialRefusal` fb21964,
+`defaultDropAccepted` 9cb7f9f): `Defects.asImplemented` is `Defects.none`, the full statements below are about
+the code as it is now. The `C15_breaks_*` witnesses and `C15_partial` describe what each defect did, i.e. what a
+revert of a fix brings back; the replays in corpus/C15 exhibit the same on the real code.
 -/
 namespace Discret.DM
 
-/-- the code as implemented has text-order numbering and atomic refusals; it differs from the intended
-    behaviour by the open `defaultDropAccepted` only -/
-theorem C15_code_vs_intended :
-    Defects.asImplemented.hashOrderIds = false ∧ Defects.asImplemented.partialRefusal = false ∧
-    Defects.asImplemented = { Defects.none with defaultDropAccepted := true } := ⟨rfl, rfl, rfl⟩
-
-/-- ids, acceptance order-independence, refusals and restarts for the code as implemented: the lemmas only need
-    `hashOrderIds = false` and `partialRefusal = false` -/
-theorem C15_as_implemented (pri pri' : List Key) (system : Bool) (m m' : Model) (v : Version) (hm : m.WF) :
-    (applyV Defects.asImplemented pri system m v).1.WF ∧
-    (applyV Defects.asImplemented pri system m v).1 = (applyV Defects.asImplemented pri' system m v).1 ∧
-    (∀ e, (applyV Defects.asImplemented pri system m v).2 = some e → (applyV Defects.asImplemented pri system m v).1 = m) ∧
-    (applyV Defects.asImplemented pri system m v = (m', none) → applyV Defects.asImplemented pri' system m' v = (m', none)) :=
-  ⟨applyV_wf Defects.asImplemented rfl rfl pri system m v hm,
-   (applyV_pri Defects.asImplemented rfl rfl pri pri' system m v).1,
-   fun e h => applyV_refused Defects.asImplemented rfl pri system m v e h,
-   fun h => applyV_idem Defects.asImplemented rfl pri pri' system m m' v hm h⟩
+/-- the theorems stated for `Defects.none` are about the code as implemented -/
+theorem C15_code_is_intended : Defects.asImplemented = Defects.none := rfl
 
 /-! ### short ids never change -/
 
@@ -244,6 +227,7 @@ def wV2 : Version := [{ name := "", ents := [ent "P" false [fI "a" false, fI "b"
 
 def onlyHashOrder : Defects := { hashOrderIds := true, partialRefusal := false, defaultDropAccepted := false }
 def onlyPartial : Defects := { hashOrderIds := false, partialRefusal := true, defaultDropAccepted := false }
+def onlyDefaultDrop : Defects := { hashOrderIds := false, partialRefusal := false, defaultDropAccepted := true }
 
 set_option maxRecDepth 100000 in
 /-- **C15_breaks_hashOrderIds** (data_model_parser.rs:1038-1051 before e35fd01). Two fields added in one
@@ -289,16 +273,16 @@ def wDflt : Version := [{ name := "", ents := [ent "P" false [fI "a" false,
 def wNoDflt : Version := [{ name := "", ents := [ent "P" false [fI "a" false, fI "b" false]] }]
 
 set_option maxRecDepth 100000 in
-/-- **C15_breaks_defaultDropAccepted** (data_model_parser.rs:1015-1025, open; confirmed on the real code:
+/-- **C15_breaks_defaultDropAccepted** (data_model_parser.rs:1015-1025 before 9cb7f9f; confirmed on the real code:
     corpus/C15/default_dropped.ops). A row written when `P` only had `a`; a version adds `b` not nullable with a
     default (accepted, the row reads 3); the next version removes the default: the code accepts it, the old row
     reads null for a not nullable field and no longer conforms (`MissingJsonField`: every peer refuses it) —
     `C15_old_rows_conform` fails. The intended behaviour refuses that version. -/
 theorem C15_breaks_defaultDropAccepted :
-    let s0 := (Inst.fresh.start Defects.asImplemented [] [] wV1).1
+    let s0 := (Inst.fresh.start onlyDefaultDrop [] [] wV1).1
     let s1 := (s0.put "" "P" 1 [("a", .int, "5")]).1
-    let s2 := (s1.updateLive Defects.asImplemented [] [] wDflt)
-    let s3 := (s2.1.updateLive Defects.asImplemented [] [] wNoDflt)
+    let s2 := (s1.updateLive onlyDefaultDrop [] [] wDflt)
+    let s3 := (s2.1.updateLive onlyDefaultDrop [] [] wNoDflt)
     s2.2 = none ∧ s2.1.conf (fun _ _ => true) = some [] ∧
     s3.2 = none ∧ s3.1.conf (fun _ _ => true) = some [(1, true)] ∧
     ((s2.1.updateLive Defects.none [] [] wNoDflt).2 = some .missingDefaultValue) := by
@@ -306,12 +290,13 @@ theorem C15_breaks_defaultDropAccepted :
 
 /-- **C15_partial** (the code before the fixes, under a decidable guard). When the version is accepted and
     brings at most one new field to each existing entity, the model with hash-order numbering and partial
-    refusals computes exactly what the code as implemented now computes. What is missing: versions adding
-    several fields to one entity (`hashOrderIds`), refused versions (`partialRefusal`), and for conformance of
-    old rows the versions that drop a default (`defaultDropAccepted`, still open). -/
+    refusals computes exactly what text-order numbering and atomic refusals compute under the same acceptance
+    rules (`onlyDefaultDrop`). What is missing: versions adding several fields to one entity (`hashOrderIds`),
+    refused versions (`partialRefusal`), and the versions that drop a default (`defaultDropAccepted`), which the
+    code now refuses. -/
 theorem C15_partial (pri : List Key) (system : Bool) (m m' : Model) (v : Version)
     (hg : oneFreshGuard system m v = true) (h : applyV Defects.beforeFixes pri system m v = (m', none)) :
-    applyV Defects.asImplemented pri system m v = (m', none) :=
+    applyV onlyDefaultDrop pri system m v = (m', none) :=
   applyV_single Defects.beforeFixes pri system m m' v hg h
 
 /-! ### non-vacuity -/
